@@ -27,7 +27,7 @@ def run(res, tier, seed, replay):
         outs = [(seed, replay["replay"]["record"] + "\n")]
     else:
         jobs = [(seed, "verify")]
-        nparts = 5 if tier == "quick" else 12
+        nparts = 6 if tier == "quick" else 12
         jobs += [(seed, "sign:%d/%d" % (k, nparts)) for k in range(nparts)]
         def one(job):
             s, only = job
